@@ -32,8 +32,10 @@ def shapes(tier):
         # a handler panics during a step; queue still holds a later action (non-empty queue) or nothing (empty queue)
         J.append(job([S("once", 1, effect=PANIC), S("once", 2, dl="rel"), STEP] + fu, max_steps=3))
         J.append(job([S("once", 1, effect=PANIC), STEP] + fu, max_steps=3))
-        # ... during step_until, with a periodic action pending
-        J.append(job([S("once", 1, effect=PANIC), S("periodic", 2, dl="rel"), UNTIL("abs")] + fu, max_steps=3))
+        # ... during step_until, with a periodic action pending (path count: short follow-ups only, <= 2 due times per step_until)
+        if len(fu) == 1:
+            J.append(job([S("once", 1, effect=PANIC), S("periodic", 2, dl="rel"), UNTIL("abs")] + fu, max_steps=2))
+        J.append(job([S("once", 1, effect=PANIC), S("once", 2, dl="rel"), UNTIL("abs")] + fu, max_steps=3))
         # the clock reports a lag above the tolerance (OutOfSync is fatal)
         J.append(job([S("once", 1), S("once", 2, dl="rel"), STEP] + fu, tolerance=True, clock=["lag"], max_steps=3))
         J.append(job([S("once", 1), UNTIL("abs")] + fu, tolerance=True, clock=["ok", "lag"], max_steps=3))
@@ -56,8 +58,35 @@ def run(tier, only=None):
     }, outside=["how the executors produce Panic/Timeout/NoRecipient/UnprocessedMessages (catch_unwind, model id capture, helper thread): "
                 "the executor is an environment model that reports ExecutorError::Panic(ModelId(0)) when the scripted handler panics",
                 "Deadlock/MessageLoss/NoRecipient/Timeout classification (needs the real executor + mailboxes); BadQuery"],
-        validate=16 if tier == "quick" else 60, only=only)
+        validate=16 if tier == "quick" else 60, only=only, extra=(lambda ev: attribution(tier, ev)) if not only else None)
+
+
+def attribution(tier, ev):
+    """the ModelId captured by every model task (sub-models included) indexes that model's own qualified name — the
+    registration scenario of C06, judged for its C11 obligation only"""
+    from props import C06
+    from vlib import scnprop as SP
+    mm, md = (4, 3) if tier == "quick" else (5, 4)
+    jobs = [dict(scenario="scenario_registration", params=dict(tree=t)) for t in C06.trees(mm, md)]
+    ev.cov["bounds"]["attribution"] = f"every model hierarchy with <= {mm} models and depth <= {md}: the id a model task reports on failure names that model"
+    return SP.run(PROP, tier, ev, "props.C06", jobs, native_replay=C06._native, only_labels=("C11",), work_key="mirse-C11")
 
 
 def replay(path):
+    import json
+    import os
+    ce = json.load(open(os.path.join(path, "counterexample.json")))
+    if "witness" in ce:
+        from props import C06
+        from vlib import common as C
+        work = C.WorkDir("mirse-C11")
+        try:
+            ok = C06._native(work, dict(params=ce["params"], scenario=ce.get("scenario")),
+                             dict(witness=ce["witness"], vals=ce["values"], label=ce["obligation"], detail=ce["detail"]), path)
+            if ok:
+                C.log(f"VIOLATION property={PROP} replay={path}")
+                return C.EXIT_VIOLATION
+            return C.EXIT_OK if ok is False else C.EXIT_INCONCLUSIVE
+        finally:
+            work.close()
     return DP.replay(PROP, path, GROUPS)
